@@ -26,10 +26,26 @@ Definition default_value (c : column) : option str :=
   | Some (DRaw x) => Some x
   end.
 
-(** [diff.defaultChanged] *)
+(** [diff.defaultChanged].  Two unquoted defaults are compared up to their outer parentheses (fix "sqlite
+    differ compares two unquoted column defaults up to their outer parentheses": SQLite reports DEFAULT (x)
+    as x); [sqlite_default_changed_old] is the code before it (x1 != x2 after Unquote), kept for the theorem
+    about the old code in Props_C01.v *)
 Definition sqlite_default_changed (from to : column) : bool :=
   match default_value from, default_value to with
   | None, None => false         (* ok1 == ok2, d1 == d2 == "" *)
+  | Some _, None | None, Some _ => true
+  | Some d1, Some d2 =>
+      if str_eqb d1 d2 then false
+      else match unquote d1, unquote d2 with
+           | Some x1, Some x2 =>
+               if str_eqb x1 x2 then false
+               else negb (str_eqb x1 d1) || negb (str_eqb x2 d2) || negb (str_eqb (may_wrap d1) (may_wrap d2))
+           | _, _ => true
+           end
+  end.
+Definition sqlite_default_changed_old (from to : column) : bool :=
+  match default_value from, default_value to with
+  | None, None => false
   | Some _, None | None, Some _ => true
   | Some d1, Some d2 =>
       if str_eqb d1 d2 then false
